@@ -407,6 +407,10 @@ def check_resume_point(V: Verdicts, prop, plan, run: Run):
             continue
         k = prev["calls"][-1]["it1"]
         b = h["boot"]
+        if h.get("crash", {}).get("real_sigkill") and h["crash"]["seam"][0] == "construct":
+            continue  # really killed while booting: no boot outcome
+        if b["result"] == "ok" and "iteration" not in b:
+            continue
         if b["result"] != "ok" or b.get("fallback"):
             if plan["lifetimes"][li]["route"] == "restore" and h["model"]["config"] != "present":
                 V.ok("restore_needs_config")  # config-less problem: restore() cannot work by design
